@@ -287,10 +287,17 @@ macro_rules! c18_roots_shortcut {
 // First Newton step: `fixpoint` is replaced by a stand-in that evaluates the iteration function ONCE, on the initial guess, and returns the marker.
 // For a concrete degree and values of full bit length the guess 2^(BITS/n + 1) is a constant, so `guess^(n-1)` (which exceeds the width for
 // large degrees - known finding F6) is evaluated by constant propagation and the division is a division by a constant: decided for all such values.
+/// value of the first Newton step, as u64 limbs (written by the `fixpoint_once_stub_*` stand-ins)
+pub static mut ROOT_STEP: [u64; 8] = [0; 8];
+pub static mut ROOT_GUESS: [u64; 8] = [0; 8];
 macro_rules! fixpoint_once_stub {
     ($name:ident, $U:ident, $D:ty) => {
         pub fn $name<const N: usize, F: Fn(bnum::$U<N>) -> bnum::$U<N>>(s: bnum::$U<N>, _max_bits: u32, f: F) -> bnum::$U<N> {
-            let _ = f(s);
+            let t = f(s);
+            unsafe {
+                ROOT_STEP = crate::c02::limbs_of::<$D, N, 8>(t.digits());
+                ROOT_GUESS = crate::c02::limbs_of::<$D, N, 8>(s.digits());
+            }
             bnum::$U::<N>::from_digits([ROOT_MARK64 as $D; N])
         }
     };
@@ -316,9 +323,37 @@ macro_rules! c18_roots_first_step {
             {
                 let mark: [$D; $N] = [$crate::c18::ROOT_MARK64 as $D; $N];
                 assert!(deq(&r, &mark), "the Newton kernel is reached and its first step does not panic");
+                // value of the first step: ((n - 1) * s0 + floor(x / s0^(n-1))) / n with s0 = 2^m, m = bits / n + 1 (exact limb arithmetic; all shifts are constants)
+                const DBU: usize = <$D>::BITS as usize;
+                let topv: $D = $top;
+                let bits: usize = ($N - 1) * DBU + (DBU - topv.leading_zeros() as usize);
+                let m: usize = bits / (n as usize) + 1;
+                let k: usize = m * (n as usize - 1);
+                let xl: [u64; 8] = $crate::c02::limbs_of::<$D, $N, 8>(&ud);
+                let mut t = [0u64; 8];
+                let mut i = 0;
+                while i < 8 {
+                    let src = i + k / 64;
+                    if src < 8 { t[i] = xl[src] >> (k % 64); if k % 64 != 0 && src + 1 < 8 { t[i] |= xl[src + 1] << (64 - k % 64); } }
+                    i += 1;
+                }
+                let addend: u64 = ((n as u64) - 1) << m; // m <= 49, n <= 2^14: fits
+                let mut carry = addend;
+                let mut i = 0;
+                while i < 8 { let (s, c) = t[i].overflowing_add(carry); t[i] = s; carry = c as u64; i += 1; }
+                let mut rem: u128 = 0;
+                let mut i = 8;
+                while i > 0 { i -= 1; let cur = (rem << 64) | t[i] as u128; t[i] = (cur / n as u128) as u64; rem = cur % n as u128; }
+                let got = unsafe { *core::ptr::addr_of!($crate::c18::ROOT_STEP) };
+                let guess = unsafe { *core::ptr::addr_of!($crate::c18::ROOT_GUESS) };
+                let j: usize = $crate::nd::nd();
+                $crate::nd::assume(j < 8);
+                assert!(guess[j] == if j == m / 64 { 1u64 << (m % 64) } else { 0 }, "initial guess 2^(bits / n + 1)");
+                assert!(got[j] == t[j], "first Newton step = ((n - 1) * s + x / s^(n-1)) / n");
             }
             #[cfg(not(kani))]
             {
+                let _j: usize = $crate::nd::nd();
                 let w = <$UW as bnum::cast::CastFrom<$U>>::cast_from(u);
                 let rw = <$UW as bnum::cast::CastFrom<$U>>::cast_from(<$U as BN<$D, $N>>::mk(r));
                 let lo_ok = match rw.checked_pow(n) { Some(p) => p <= w, None => false };
